@@ -70,7 +70,15 @@ func (c *PollClient) Post(ps []Pkt) *Resp {
 	for k, v := range c.Hdr {
 		h[k] = v
 	}
-	return c.W.Request("POST", c.url(true), ReqOpt{Hdr: h, Body: body})
+	r := c.W.Request("POST", c.url(true), ReqOpt{Hdr: h, Body: body})
+	var msgs []string
+	for _, p := range ps {
+		if p.Type == '4' {
+			msgs = append(msgs, string(p.Data))
+		}
+	}
+	c.W.PostMsgs[r] = msgs
+	return r
 }
 
 // PostRaw posts an arbitrary body.
